@@ -401,6 +401,15 @@ def rule4_affine(ctx, v):
         idx = ia[0][1]
         maps = call_sites(a, 'myth_mmap')
         ctx.ob('C12.4', 'flmalloc: fresh blocks come from myth_mmap', len(maps) >= 1, 'allocation sites found', loc=a.loc)
+        pops_ = [c for c, _i in ia]
+        for mc in maps:
+            ctx.ob('C12.4', 'flmalloc: a fresh block is mapped only when the class free list is empty', bool(pops_) and
+                   any(lib.guarded_by_null(a, p_.id, mc) for p_ in pops_), 'if (!ptr) allocate', loc=mc.loc)
+        for val, anchor in lib.ret_cases(a):
+            if isinstance(val, str):
+                srcs = set(k for k in a.sources(val) if not k.startswith('{'))
+                ctx.ob('C12.4', 'flmalloc: returns the recycled block or the fresh one', bool(srcs) and
+                       srcs <= set([p_.id for p_ in pops_] + [m_.id for m_ in maps]), 'ptr', loc=anchor.loc)
 
         def class_size(ref):
             i = a.get(a.strip(ref)) if isinstance(ref, str) else None
@@ -558,6 +567,8 @@ def run(ctx):
 SCHED = 'src/myth_sched_func.h'
 MISC = 'src/myth_misc_func.h'
 MUTANTS = [
+    {'name': 'flmalloc maps a fresh block when a recycled one is available (sweep M0310)', 'expect': 'C12.4',
+     'edits': [(MISC, "  if (!ptr){\n    //Freelist is empty, allocate", "  if (!(!ptr)){\n    //Freelist is empty, allocate")]},
     {'name': 'stack released only for threads that have none (sweep M0168, passes the suite)', 'expect': 'C12.4',
      'edits': [(SCHED, "  if (th->stack) {\n    //Add to a freelist\n    ptr = (void**)th->stack;", "  if (!(th->stack)) {\n    //Add to a freelist\n    ptr = (void**)th->stack;")]},
     {'name': 'stack released in cleanup before the final switch', 'expect': 'C12.1',
